@@ -314,9 +314,11 @@ string read_all(int fd) {
       throw io_error(fd);
     }
 
+    // A short read does not mean the end was reached (pipes, sockets and
+    // terminals return whatever is available); only a zero-byte read does
     total_size += bytes_read;
-    if (bytes_read < read_size) {
-      buffers.back().resize(bytes_read);
+    buffers.back().resize(bytes_read);
+    if (bytes_read == 0) {
       break;
     }
   }
